@@ -1,0 +1,61 @@
+//go:build verif
+
+package content
+
+import (
+	"bytes"
+	"errors"
+
+	"seehuhn.de/go/pdf"
+)
+
+// This file is only compiled with the build tag "verif".  It exposes the
+// unexported content-stream scanner to an external verification harness; it
+// adds no behaviour of its own.
+
+// VerifScanner wraps the unexported scanner reading from a byte slice.
+type VerifScanner struct {
+	s *scanner
+	r *bytes.Reader
+}
+
+// NewVerifScanner returns a scanner over data, set up exactly as
+// scannerIter.All does.
+func NewVerifScanner(data []byte) *VerifScanner {
+	r := bytes.NewReader(data)
+	return &VerifScanner{
+		s: &scanner{
+			buf: make([]byte, 512),
+			src: r,
+		},
+		r: r,
+	}
+}
+
+// ScanToken calls the scanner's ScanToken method.
+func (v *VerifScanner) ScanToken() (pdf.Native, error) { return v.s.ScanToken() }
+
+// Scan calls the scanner's Scan method.
+func (v *VerifScanner) Scan() (Operator, error) { return v.s.Scan() }
+
+// ResetStack empties the composite stack, as pumpScanner does after a parse error.
+func (v *VerifScanner) ResetStack() { v.s.stack = v.s.stack[:0] }
+
+// Remaining returns the number of input bytes not yet consumed.
+func (v *VerifScanner) Remaining() int { return v.s.used - v.s.pos + v.r.Len() }
+
+// VerifIsParseError reports whether err is the scanner-level parse error.
+func VerifIsParseError(err error) bool { return errors.Is(err, parseError{}) }
+
+// VerifNesting returns the kinds of the open paired operators, outermost
+// first, one digit per frame (1 q, 2 BT, 3 BMC/BDC, 4 BX).
+func (s *State) VerifNesting() string {
+	b := make([]byte, len(s.nesting))
+	for i, f := range s.nesting {
+		b[i] = '0' + byte(f.Kind)
+	}
+	return string(b)
+}
+
+// VerifStackDepth returns the current depth of the q/Q stack.
+func (s *State) VerifStackDepth() int { return len(s.stack) }
